@@ -6,9 +6,10 @@ import re
 
 from sa.astx import call_name, module_consts, names_read, src, walk_local
 from sa.domains import escaper_problems, replace_chain
+from sa.effects import class_accesses
 from sa.selftest import Mutant, Silent
 from sa.source import AnalysisError, class_assigns, methods
-from sa.props._lib_i import (sect, COMPAT, BlockRaised, NotPure, Raised, eval_block, interp, module_env, peval, words)
+from sa.props._lib_i import (sect, COMPAT, BlockRaised, FollowModule, NotPure, Raised, eval_block, interp, module_env, peval, words)
 
 PROPERTY = "C43"
 IRC = "words/protocols/irc.py"
@@ -22,7 +23,8 @@ EXPLANATION = (
     "width + len(prefix) + 2 <= length for every length (else ValueError), sends prefix+chunk for every chunk in order; msg/notice "
     "forward message and length; split() wraps with the given width and no content-dropping / limit-breaking options. The limit is "
     "in octets but chunks are measured in characters before low-quoting and UTF-8 encoding expand them: known finding F43. "
-    "Not decided: textwrap's own behaviour (content preservation of the wrapping), server-side IRC.sendLine."
+    "The rate-limit queue is filled at one end and drained from the other (operation kinds), and three queued lines are "
+    "evaluated to leave in order with lineRate set. Not decided: textwrap's own behaviour (content preservation of the wrapping), server-side IRC.sendLine."
 )
 ASSUMPTIONS = [
     "textwrap.wrap(text, width) returns chunks of at most width characters that together contain all non-whitespace characters in order (stdlib)",
@@ -256,28 +258,33 @@ def _check_send_path(ctx, env, low_pairs):
     # -- split(): wrap arguments
     f = ctx.func(IRC, "split")
     q = "twisted.words.protocols.irc.split"
-    sp = [a.arg for a in f.args.args]
-    wraps = [c for c in ast.walk(f) if isinstance(c, ast.Call) and call_name(c) in ("textwrap.wrap", "wrap")]
-    ctx.need(wraps, "textwrap.wrap call in split()")
-    for c in wraps:
-        width = c.args[1] if len(c.args) > 1 else next((k.value for k in c.keywords if k.arg == "width"), None)
-        ctx.check(width is not None and src(width) == sp[1], "split/wrap-arguments", ctx.construct(q, c) + " | width",
-                  "the wrapping width is not the length the caller asked for")
-        for k in c.keywords:
-            harmful = (k.arg == "break_long_words" and not (isinstance(k.value, ast.Constant) and k.value.value is True)) or \
-                      (k.arg in ("max_lines", "placeholder") and not (isinstance(k.value, ast.Constant) and k.value.value is None)) or k.arg is None
-            ctx.check(not harmful, "split/wrap-arguments", ctx.construct(q, c) + f" | option {k.arg}",
-                      f"textwrap option {k.arg}={src(k.value)}: " + ("words longer than the width are sent unsplit and exceed the limit" if k.arg == "break_long_words"
-                                                                       else "content beyond the cap is dropped"))
-    ctx.ok("split/wrap-arguments", q, f"{len(wraps)} wrap call(s)")
+    mod = ctx.mod(IRC)
+    split_fn = interp(f, FollowModule(mod, dict(COMPAT), env), env)        # textwrap (wrap / TextWrapper and its options) is delegated to CPython
+    WSP = "\t\n\x0b\x0c\r "
+    bad_w = bad_c = None
+    n_split = 0
+    for text in ("hello world", "x" * 30, "ab cd ef gh ij kl", "a" * 9 + " " + "b" * 12, "one\ntwo three\n\nfour", "tab\tsep arated", "a\rb c\x0bd e\x0cf", "  lead and trail  ", ""):
+        for width in (1, 2, 3, 5, 10, 40):
+            try:
+                chunks = split_fn(text, width)
+            except (Raised, BlockRaised) as ex:
+                raise AnalysisError(f"{q}({text!r}, {width}) not evaluable: {ex}")
+            n_split += 1
+            if any(len(c) > width for c in chunks) and bad_w is None:
+                bad_w = (text, width, chunks)
+            if "".join(c for c in "".join(chunks) if c not in WSP) != "".join(c for c in text if c not in WSP) and bad_c is None:
+                bad_c = (text, width, chunks)
+    ctx.check(bad_w is None, "split/wrap-arguments", q + " | every chunk within the width",
+              bad_w and f"split({bad_w[0]!r}, {bad_w[1]}) returns {bad_w[2]!r}: a chunk is longer than the requested width (words longer than the width must be broken)",
+              detail=f"{n_split} (text, width) cases")
+    ctx.check(bad_c is None, "split/wrap-arguments", q + " | nothing but white space dropped",
+              bad_c and f"split({bad_c[0]!r}, {bad_c[1]}) returns {bad_c[2]!r}: non-whitespace content is lost or reordered")
     # -- real messages through _sendMessage -> split -> _reallySendLine (repository functions interpreted, textwrap / str methods delegated to CPython)
     f = ctx.func(IRC, "IRCClient._sendMessage")
     q = base + "_sendMessage"
     rs = ctx.func(IRC, "IRCClient._reallySendLine")
     rline = rs.args.args[1].arg
-    real = dict(COMPAT)
-    real["lowQuote"] = interp(ctx.func(IRC, "lowQuote"), COMPAT, env)
-    real["split"] = interp(ctx.func(IRC, "split"), COMPAT, env)
+    real = FollowModule(mod, dict(COMPAT), env)       # lowQuote, split and any other module-level helper are interpreted on demand
 
     def wire_of(text):
         r = eval_block(rs.body, {**env, rline: text, "self": object()}, funcs=real, record={"basic.LineReceiver.sendLine"})
@@ -285,7 +292,7 @@ def _check_send_path(ctx, env, low_pairs):
 
     WS = "\t\n\x0b\x0c\r "
     plain = ["hello world", "a\rb", "a\nb", "a\r\nb", "\r", "\n", "\r\n", "ab cd ef gh ij", "x" * 30, "", " ", "a  b", "tab\tsep", "trailing\r", "\rleading", "a\rb\rc\rd",
-             "one\ntwo three\n\nfour"]
+             "one\ntwo three\n\nfour", "ab\rcd", "abc\x0bdef ghi", "a\x0cb", "ab\tcd", "\x0b", "x\ry\rz w", "abcd\refgh", "ab\x0b\x0ccd ef\rgh"]
     expanding = ["a\x10b\x10c", "\x10" * 8, "\x00" * 4, "\u00e9" * 6, "\u20ac \u20ac\u20ac", "x\u00e9 y\x10"]
     prefix = "PRIVMSG u :"
     over_plain = over_exp = lost = None
@@ -326,6 +333,60 @@ def _check_send_path(ctx, env, low_pairs):
               "(1 character -> up to 4 octets)")
 
 
+def _check_queue(ctx, env):
+    """The rate-limit queue of IRCClient: lines leave in the order they were queued."""
+    mod = ctx.mod(IRC)
+    cls = ctx.cls(IRC, "IRCClient")
+    base = "twisted.words.protocols.irc.IRCClient."
+    # K5: produced at one end, consumed from the other (classified by operation kind)
+    acc = class_accesses(mod, cls, {"_queue"}, receivers={"self"})
+    tail_in = [a for a in acc if a.kind in ("append", "extend")]
+    head_in = [a for a in acc if a.kind in ("appendleft", "insert0", "extendleft")]
+    head_out = [a for a in acc if a.kind == "pop_first"]
+    tail_out = [a for a in acc if a.kind == "pop_last"]
+    odd = [a for a in acc if a.kind in ("insert", "pop_key", "sort", "reverse", "remove")]
+    ctx.floor("queue/fifo", len(tail_in) + len(head_in), 1)
+    for a in head_out + tail_out:
+        lifo = (a.kind == "pop_last" and tail_in) or (a.kind == "pop_first" and head_in)
+        ctx.check(not lifo, "queue/fifo", ctx.construct("twisted.words.protocols.irc." + a.func, a.node),
+                  "the rate-limit queue is consumed at the end it is filled at: queued lines (the chunks of one long message) go out newest first")
+    for a in odd:
+        ctx.check(False, "queue/fifo", ctx.construct("twisted.words.protocols.irc." + a.func, a.node), f"queue operation {a.kind} reorders or drops queued lines")
+    ctx.check(bool(head_out or tail_out), "queue/fifo", base + "_queue | consumer", "queued lines are never taken off the queue")
+    # evaluated: three lines through sendLine with a line rate set, then the delayed calls run
+    inits = [st.value for m in ast.walk(cls) if isinstance(m, ast.FunctionDef) for st in ast.walk(m)
+             if isinstance(st, ast.Assign) and any(isinstance(t, ast.Attribute) and t.attr == "_queue" and src(t.value) == "self" for t in st.targets)]
+    ctx.need(inits, "initial value of self._queue")
+    f_send = ctx.func(IRC, "IRCClient.sendLine")
+    f_drain = ctx.func(IRC, "IRCClient._sendLine")
+    lp = f_send.args.args[1].arg
+    for rate in (None, 2):
+        for init in inits:
+            try:
+                q0 = peval(init, env)
+            except (NotPure, Raised) as ex:
+                raise AnalysisError(f"initial queue {src(init)} not evaluable ({ex})")
+            sent, pending = [], []
+            e = dict(env)
+            funcs = FollowModule(mod, dict(COMPAT), env)
+            funcs["reactor.callLater"] = lambda delay, fn, *a: (pending.append(fn), object())[1]
+            e.update({"self": object(), "self.lineRate": rate, "self._queue": q0, "self._queueEmptying": None, "self._reallySendLine": sent.append})
+            e["self._sendLine"] = lambda: eval_block(f_drain.body, e, funcs=funcs)
+            lines = ["PRIVMSG u :one", "PRIVMSG u :two", "PRIVMSG u :three"]
+            try:
+                for ln in lines:
+                    e[lp] = ln
+                    eval_block(f_send.body, e, funcs=funcs)
+                steps = 0
+                while pending and steps < 20:
+                    steps += 1
+                    pending.pop(0)()
+            except BlockRaised as ex:
+                raise AnalysisError(f"send queue not evaluable: {ex}")
+            ctx.check(sent == lines, "queue/drains-in-order", base + f"sendLine ~ _sendLine | lineRate {'set' if rate else 'None'}, queue {src(init)}",
+                      f"three lines handed to sendLine with lineRate={rate} reach the wire as {sent!r}: the message parts must keep their order (and none may stay queued)")
+
+
 def check(ctx):
     mod = ctx.mod(IRC)
     env = module_env(mod)
@@ -337,6 +398,8 @@ def check(ctx):
         _check_quoting(ctx, env, cenv, "ctcp", "ctcpQuote", "ctcpDequote", "X_QUOTE", "xQuoteTable", "xDequoteTable", ("X_DELIM",))
     with sect(ctx, "send path"):
         _check_send_path(ctx, env, low)
+    with sect(ctx, "rate-limit queue"):
+        _check_queue(ctx, env)
 
 
 MUTANTS = [
@@ -363,6 +426,10 @@ MUTANTS = [
            "        else:\n            chunks = split(message, room)\n        for line in chunks:\n            self.sendLine(fmt + line)\n", expect_rule="limit/plain-text-within-budget"),
     Mutant("ctcpquote-iterates-table-order", IRC, "    for c in (X_QUOTE, X_DELIM):\n        s = s.replace(c, xQuoteTable[c])\n", "    for c, quoted in xQuoteTable.items():\n        s = s.replace(c, quoted)\n",
            expect_rule="quote/"),
+    Mutant("wrapper-keeps-control-whitespace", IRC, "    return [chunk for line in str.split(\"\\n\") for chunk in textwrap.wrap(line, length)]\n",
+           "    w = textwrap.TextWrapper(width=length, replace_whitespace=False)\n    return [chunk for line in str.split(\"\\n\") for chunk in w.wrap(line)]\n", expect_rule="limit/plain-text-within-budget"),
+    Mutant("queue-drained-newest-first", IRC, "            self._reallySendLine(self._queue.pop(0))\n", "            self._reallySendLine(self._queue.pop())\n", expect_rule="queue/"),
+    Mutant("queue-filled-at-the-head", IRC, "            self._queue.append(line)\n", "            self._queue.insert(0, line)\n", expect_rule="queue/"),
     Mutant("heartbeat-writes-raw", IRC, '        self.sendLine("PING " + self.hostname)\n', '        self.transport.write(("PING " + self.hostname).encode("utf-8") + b"\\r\\n")\n',
            expect_rule="send/single-wire-path"),
 ]
@@ -381,6 +448,10 @@ SILENT = [
     Silent("dequote-without-regex", IRC, "    return xEscape_re.sub(sub, s)\n",
            "    out = []\n    i = 0\n    while i < len(s):\n        if s[i] == X_QUOTE and i + 1 < len(s):\n            out.append(xDequoteTable.get(s[i + 1], s[i + 1]))\n            i += 2\n"
            "        else:\n            out.append(s[i])\n            i += 1\n    return \"\".join(out)\n"),
+    Silent("wrapper-object-default-options", IRC, "    return [chunk for line in str.split(\"\\n\") for chunk in textwrap.wrap(line, length)]\n",
+           "    w = textwrap.TextWrapper(width=length, break_on_hyphens=True)\n    return [chunk for line in str.split(\"\\n\") for chunk in w.wrap(line)]\n"),
+    Silent("queue-as-deque-popleft", IRC, "            self._reallySendLine(self._queue.pop(0))\n", "            self._reallySendLine(self._queue.popleft())\n",
+           more=[(IRC, "        self.supported = ServerSupportedFeatures()\n        self._queue = []\n", "        self.supported = ServerSupportedFeatures()\n        self._queue = collections.deque()\n")]),
     Silent("budget-guard-rewritten", IRC, "        if length <= minimumLength:\n", "        if not length > minimumLength:\n"),
     Silent("dequote-table-comprehension-free", IRC, "for k, v in mQuoteTable.items():\n    mDequoteTable[v[-1]] = k\n", "for k, v in mQuoteTable.items():\n    mDequoteTable[v[1:]] = k\n"),
     Silent("notice-length-keyword", IRC, '        self._sendMessage("NOTICE", user, message, length)\n', '        self._sendMessage("NOTICE", user, message, length=length)\n'),
